@@ -17,6 +17,7 @@ mod obj;
 mod tex;
 mod target;
 mod raster;
+mod clip;
 
 use std::io::{BufRead, BufWriter, Write};
 
@@ -62,6 +63,7 @@ fn subsystem(name: &str) -> Option<(GenFn, ExecFn)> {
         "tex" => (tex::gen, tex::exec),
         "target" => (target::gen, target::exec),
         "raster" => (raster::gen, raster::exec),
+        "clip" => (clip::gen, clip::exec),
         _ => return None,
     })
 }
